@@ -15,8 +15,28 @@ fn apply(f: &str, c: Coord<f64>) -> Coord<f64> {
     }
 }
 
+/// X02 (extension): HasDimensions against the specification's Dim / BDim / IsEmptyG
+fn dims_case(cx: &mut Ctx, case: &Value) {
+    use geo::dimensions::{Dimensions, HasDimensions};
+    let g = gj::parse(&case["g"]);
+    let gg = g.geometry();
+    let num = |d: Dimensions| match d { Dimensions::Empty => -1, Dimensions::ZeroDimensional => 0, Dimensions::OneDimensional => 1, Dimensions::TwoDimensional => 2 };
+    let want = (case["dim"].as_i64().unwrap(), case["bdim"].as_i64().unwrap(), case["empty"].as_bool().unwrap());
+    let got_enum = crate::ctx::guard(|| (num(gg.dimensions()), num(gg.boundary_dimensions()), HasDimensions::is_empty(&gg)));
+    let got_conc = crate::ctx::guard(|| crate::with_g!(&g, x => (num(x.dimensions()), num(x.boundary_dimensions()), HasDimensions::is_empty(x))));
+    for (sub, got) in [("dimensions_geometry_enum", got_enum), ("dimensions_concrete", got_conc)] {
+        match got {
+            Ok(t) if t == want => cx.ok(sub),
+            other => cx.bad("X02", sub, case, json!({"what": "(dimensions, boundary_dimensions, is_empty)", "got": format!("{other:?}"), "want": format!("{want:?}")})),
+        }
+    }
+}
+
 pub fn traversal_case(cx: &mut Ctx, n: u64, case: &Value) {
-    if !cx.wants("C19") {
+    if cx.wants("X02") && cx.props.iter().any(|p| p == "X02") && case["f"] == "affine" {
+        dims_case(cx, case);
+    }
+    if !cx.wants("C19") || (cx.props.iter().any(|p| p == "X02") && !cx.props.iter().any(|p| p == "C19")) {
         return;
     }
     let g = gj::parse(&case["g"]);
